@@ -39,14 +39,15 @@ def kind_of(name: str) -> str:
 
 
 _ROT = {"dir": None, "rng": None, "fraction": 0.0, "n": 0, "handed_out": 0}
-ROT_SLOTS = 12
+ROT_SLOTS = 48
 
 
 def enable_rotation(workdir: str, seed: str, fraction: float) -> None:
-    """From now on a fraction of the paths handed out are ROTATING slots: ROT_SLOTS file names per form in a folder of this
+    """From now on a fraction of the paths handed out are ROTATING slots: ROT_SLOTS (48) file names per form in a folder of this
     process, each holding another key every time it comes round - what a project looks like whose keys were replaced
-    under the same names and which the same process builds again.  A case must not hold more than ROT_SLOTS paths of one
-    form at a time (none does: at most four roots, an ISK and a signer)."""
+    under the same names and which the same process builds again.  A case must not hold more than ROT_SLOTS ROTATING paths of
+    one form at a time: the largest user is an AHAB configuration with four containers of two SRK tables each (32 paths of one
+    form, about a third of them rotating)."""
     import random
 
     _ROT.update(dir=os.path.join(workdir, "rotating_pki"), rng=random.Random(seed), fraction=fraction)
@@ -66,9 +67,11 @@ def path(name: str, what: str = "priv", fmt: str = "pem") -> str:
     if _ROT["dir"] and _ROT["rng"].random() < _ROT["fraction"]:
         import shutil
 
-        _ROT["n"] += 1
+        form = f"{suffix}.{fmt}"
+        counters = _ROT.setdefault("per_form", {})
+        counters[form] = counters.get(form, 0) + 1  # one ring of slots per form: only paths of the SAME form can meet again
         _ROT["handed_out"] += 1
-        slot = os.path.join(_ROT["dir"], f"slot{_ROT['n'] % ROT_SLOTS}{suffix}.{fmt}")
+        slot = os.path.join(_ROT["dir"], f"slot{counters[form] % ROT_SLOTS}{suffix}.{fmt}")
         shutil.copyfile(p, slot)
         return slot
     return p
